@@ -1,4 +1,5 @@
 """C04 Code-modifying options change only the tokens they name (see DESIGN.md section 4)."""
+import re
 from ..facts import expr_str, walk
 from . import common_effects
 
@@ -161,7 +162,9 @@ def rule_sort_whole_lines(ctx):
                 r.seen()
                 if f.qn == "remove_duplicate_include":
                     cs = _conds(f, n)
-                    r.check(("strcmp(next->Text(), current->Text()) == 0", True) in cs and ("pc->Is(CT_PP_INCLUDE)", True) in cs, "remove_duplicate_include/Delete(%s)" % expr_str(f, n["a"][0]),
+                    # an equality test between the text of this include and a remembered one, in any spelling
+                    eq = any(pol is True and "next->Text()" in c and (re.match(r"^(std::)?strcmp\(.*\) == 0$", c) or re.match(r"^[^=!<>]+ == [^=]+$", c)) for c, pol in cs)
+                    r.check(eq and ("pc->Is(CT_PP_INCLUDE)", True) in cs, "remove_duplicate_include/Delete(%s)" % expr_str(f, n["a"][0]),
                             db.loc(f, n), "deletes under %s" % cs)
                 else:
                     r.check(f.qn == "delete_chunks_on_line_having_chunk", "%s/Delete" % f.qn, db.loc(f, n), "sorting.cpp deletes chunks in %s" % f.qn)
